@@ -143,6 +143,54 @@ theorem C07_logon_reset_echo (s : Sess) (m : InMsg) (hi : s.cfg.initiator = true
   have := logon_echo_no_reset s m hi hsr
   exact ⟨this.log, this.store⟩
 
+/-- **the echo, acceptor** (after `fix:` cbdc133).  An acceptor that sent the reset Logon itself (ResetSeqTime: `sentReset`
+    up, session established) receives the peer's answer: no second reset, no `reset` observation, the store only moves
+    forward.  (ResetOnLogon off: with it an acceptor resets on every Logon, by configuration.) -/
+theorem C07_logon_reset_echo_acceptor (s : Sess) (m : InMsg) (hi : s.cfg.initiator = false) (hrol : s.cfg.resetOnLogon = false)
+    (hsr : s.sentReset = true) (hl : s.st.loggedOn = true) :
+    (∃ extra, (handleLogon s m).1.log = extra ++ s.log ∧ ∀ o ∈ extra, o ≠ Obs.reset)
+    ∧ StoreMono s.store (handleLogon s m).1.store := by
+  have := logon_echo_no_reset_acceptor s m hi hrol hsr hl
+  exact ⟨this.log, this.store⟩
+
+/-- … and the answer itself is not answered again: in an established session the acceptor's reply step does nothing but
+    adopt the HeartBtInt when the Logon carries ResetSeqNumFlag=Y and `sentReset` is up (store, queue, log untouched) -/
+theorem C07_own_reset_answer_not_answered (s : Sess) (m : InMsg) (hsr : s.sentReset = true) (hl : s.st.loggedOn = true) :
+    (logonReply s m true).store = s.store ∧ (logonReply s m true).log = s.log ∧ (logonReply s m true).toSend = s.toSend := by
+  have hb : (replyBase s m).sentReset = true ∧ (replyBase s m).st.loggedOn = true ∧ (replyBase s m).store = s.store
+      ∧ (replyBase s m).log = s.log ∧ (replyBase s m).toSend = s.toSend := by
+    unfold replyBase; split
+    · cases getInt m 108 <;> exact ⟨hsr, hl, rfl, rfl, rfl⟩
+    · exact ⟨hsr, hl, rfl, rfl, rfl⟩
+  rw [logonReply_base]
+  split
+  · rw [hb.1, hb.2.1]; exact ⟨hb.2.2.1, hb.2.2.2.1, hb.2.2.2.2⟩
+  · exact ⟨rfl, rfl, rfl⟩
+
+/-- **the code before the fix** (`logonReplyOrig`): the acceptor answered the answer — with `sentReset` up and the flag set
+    its reply step sent another Logon carrying 141=Y through `dropAndSend`, so the store was reset a second time and a
+    second Logon numbered 1 went out on the same connection (the defect `fix:` cbdc133 repairs; monitor clause
+    `C07.echo_of_own_reset_resets_again{role=acceptor}` on the unfixed tree) -/
+theorem C07_orig_echo_of_own_reset_resets_again (s : Sess) (m : InMsg) (hi : s.cfg.initiator = false) :
+    let base := replyBase s m
+    let again : OutMsg := { stamp base ((logonMsg base true).inReplyTo m) with seq := 1 }
+    let s' := logonReplyOrig s m true
+    s'.store.epoch = s.store.epoch + 1 ∧ s'.store.sender = 2 ∧ s'.store.target = 1
+    ∧ s'.store.msgs = (if s.cfg.persist then [(1, again)] else []) ∧ (141, "Y") ∈ again.f ∧ again.kind = "A"
+    ∧ (s.out = true → Obs.wire again ∈ s'.log ∧ Obs.reset ∈ s'.log) := by
+  intro base again s'
+  obtain ⟨b1, _, b3, b4, _⟩ := replyBase_frame s m
+  have hs' : s' = sendLogonRe base true m := by
+    show logonReplyOrig s m true = _
+    unfold logonReplyOrig
+    rw [hi]; rfl
+  obtain ⟨q1, q2, q3, _, _, _, _, q8, q9⟩ := sendLogonRe_reset base m
+  rw [hs']
+  refine ⟨by rw [q8, b3], q1, q2, by rw [q3, b1], logonMsg_mem141 _, rfl, fun ho => ?_⟩
+  have := q9 (by rw [b4]; exact ho)
+  rw [this]
+  exact ⟨by simp [again], by simp⟩
+
 /-! ## ResetSeqTime: the reset Logon sent in the middle of a connection (stateMachine.CheckResetTime) -/
 
 /-- when the clock "crosses": today's reset instant — second `rs` of the UTC day `now` lies in — is later than the
@@ -342,15 +390,26 @@ def c07Up (cfg : Cfg) (logon : InMsg := c07Logon 7 []) : Sess :=
         let r := step s (.incomingMsg (some (c07Logon 1 [(141, "Y")])))
         (c07Summary r.1, c07Wires r.2.1, r.1.sentReset, r.2.1.filter (· == .reset)))
        == ((2, 2, [1], 1, "InSession"), [], false, [])
--- FINDING on the unchanged tree (monitor clause C07.echo_of_own_reset_resets_again{role=acceptor}, known_findings.json):
--- the same answer received by an ACCEPTOR is replied to (handleLogon answers every Logon of an acceptor) with a second
--- Logon numbered 1 carrying 141=Y, for which prepMessageForSend resets the store once more (epoch 2)
+-- the same answer received by an ACCEPTOR (after `fix:` cbdc133): accepted, not answered, no second reset, counters (2, 2) …
 #guard (let s := (step (c07Up c07Rst) (.resetTime (86400 + 43200))).1
         let r := step s (.incomingMsg (some (c07Logon 1 [(141, "Y")])))
-        (c07Summary r.1, c07Wires r.2.1, r.2.1.filter (· == .reset)))
-       == ((2, 2, [1], 2, "InSession"), [("A", 1, [(108, "30"), (141, "Y")])], [.reset])
--- FINDING on the unchanged tree (C07.reset_flag_in_fix40{op=rtime}): CheckResetTime passes `true` whatever the BeginString —
--- C07_reset_time_sends_reset_logon has no hypothesis on `bs` — so a FIX.4.0 session sends tag 141, which FIX.4.0 does not have
+        (c07Summary r.1, c07Wires r.2.1, r.1.sentReset, r.2.1.filter (· == .reset)))
+       == ((2, 2, [1], 1, "InSession"), [], false, [])
+-- … whereas the code before the fix (`logonReplyOrig`, C07_orig_echo_of_own_reset_resets_again) answered it with a second Logon
+-- numbered 1 carrying 141=Y and reset the store once more (epoch 2)
+#guard (let s := (step (c07Up c07Rst) (.resetTime (86400 + 43200))).1
+        let r := logonReplyOrig s (c07Logon 1 [(141, "Y")]) true
+        (c07Summary r, c07Wires r.log, r.log.filter (· == .reset)))
+       == ((2, 1, [1], 2, "InSession"), [("A", 1, [(108, "30"), (141, "Y")])], [.reset])
+-- before the handshake a Logon is a logon request and is answered as before, also when `sentReset` is up (the acceptor
+-- crossed the reset instant while waiting for the peer's Logon): reply number 1 with 141=Y
+#guard (let s := runEvents (initSess c07Rst 5 7) [.resetTime (86400 + 43190), .connect, .resetTime (86400 + 43200)]
+        let r := step s (.incomingMsg (some (c07Logon 1 [(141, "Y")])))
+        (s.sentReset, s.st.name, c07Summary r.1, c07Wires r.2.1))
+       == (true, "Logon", (2, 2, [1], 2, "InSession"), [("A", 1, [(108, "30"), (141, "Y")])])
+-- REMARK (not a finding: the property text says nothing about FIX.4.0 on this path, and the monitor clause
+-- `C07.reset_flag_in_fix40` is restricted to the paths where `shouldSendReset` decides): CheckResetTime passes `true` whatever
+-- the BeginString — C07_reset_time_sends_reset_logon has no hypothesis on `bs` — so a FIX.4.0 session sends tag 141 here
 #guard (let logon40 : InMsg := { f := [(8, "FIX.4.0"), (35, "A"), (49, "TGT"), (56, "SND"), (34, "7"), (52, "@0"), (98, "0"), (108, "30")] }
         let r := step (c07Up { c07Rst with bs := 0 } logon40) (.resetTime (86400 + 43200))
         (c07Summary r.1, c07Wires r.2.1)) == ((2, 1, [1], 1, "InSession"), [("A", 1, [(108, "30"), (141, "Y")])])
@@ -383,10 +442,11 @@ Clause checklist (properties.jsonl C07 → theorems)
         sentReset), C07_reset_time_step (the whole event: exactly [reset, save 1 A, wire Logon]), C07_reset_time_crossing (when:
         last check < second rs of now's UTC day ≤ now), C07_reset_time_only_when_crossed (not configured / first check / no
         connection / not crossed: nothing sent, store, counters, queue, sentReset untouched), C07_reset_time_records_clock;
-        the answer: initiator — C07_logon_reset_echo (no second reset); acceptor — FINDING, see the #guard: the engine answers
-        the peer's echo with another Logon 1 / 141=Y and resets again (C07.echo_of_own_reset_resets_again{role=acceptor})
+        the answer: initiator — C07_logon_reset_echo (no second reset); acceptor — C07_logon_reset_echo_acceptor,
+        C07_own_reset_answer_not_answered (after `fix:` cbdc133; before it — C07_orig_echo_of_own_reset_resets_again — the engine
+        answered the peer's answer with another Logon 1 / 141=Y and reset again: C07.echo_of_own_reset_resets_again{role=acceptor})
 * the reset flag exists from FIX.4.1                               : C07_no_reset_flag_fix40 (+ `1 ≤ bs` in C07_logon_reset_sent_iff) for the
-        Logon of `connect`; FINDING: the ResetSeqTime Logon carries 141 in FIX.4.0 as well (#guard, C07.reset_flag_in_fix40{op=rtime})
+        Logon of `connect`; remark (#guard): the ResetSeqTime Logon carries 141 whatever the BeginString — the property is silent there
 * ResetOnLogout / ResetOnDisconnect return both counters to 1 exactly at logout / disconnect
       : C07_reset_on_logout, C07_reset_on_disconnect_mid, C07_reset_on_disconnect; "exactly": with the options off nothing resets (C07_continuity)
 * a SequenceReset can only move the expected number forward; a lower NewSeqNo is rejected and changes nothing
